@@ -150,7 +150,8 @@ void h_QN_order(void)
  * TYPE INVARIANT of Symmetrizer (symm.c: NSymmetries == Operations.size() >= 0). */
 struct Operator;
 typedef struct OpPtr { struct Operator *p; } OpPtr;
-typedef struct VecOpPtr { unsigned long size; OpPtr scratch; } VecOpPtr;
+/* ghost-element model: the operation at ONE arbitrary position gidx is the object gop; every other position yields `scratch` */
+typedef struct VecOpPtr { unsigned long size; OpPtr scratch; unsigned long gidx; OpPtr gop; } VecOpPtr;
 //@struct Pomerol::Symmetrizer only=NSymmetries,Operations
 //@function Pomerol::Symmetrizer::getQuantumNumbers() const as Symmetrizer_getQuantumNumbers
 //@contract
@@ -200,23 +201,31 @@ struct IndexClassification { unsigned int IndexSize; };
 static inline unsigned int IndexClassification_getIndexSize(struct IndexClassification *ic) { return ic->IndexSize; }
 static inline unsigned long VecOpPtr_size(VecOpPtr *v) { return v->size; }
 static inline OpPtr *VecOpPtr_at(VecOpPtr *v, unsigned long i)
-{ __CPROVER_assert(i < v->size, "vector<shared_ptr<Operator>>::operator[]: index < size()"); return &v->scratch; }
+{ __CPROVER_assert(i < v->size, "vector<shared_ptr<Operator>>::operator[]: index < size()"); return i == v->gidx ? &v->gop : &v->scratch; }
 static inline struct Operator *OpPtr_arrow(OpPtr *s) { return s->p; }
 static inline VecOpPtr *Symmetrizer_getOperations(struct Symmetrizer *sy) { return &sy->Operations; }
 /* the hash oracle */
 unsigned long g_qhs[__CPROVER_constant_infinity_uint];   /* hash of Q(u) for a state u when there is at least one symmetry operation */
 unsigned long g_h0;                                       /* hash of the zero-length / freshly constructed QuantumNumbers */
 unsigned long g_cur_state; int g_nops;                    /* the state being classified; the number of symmetry operations */
-/* virtual Operator::getMatrixElement(bra, ket): ORACLE, any value */
+/* the ghost PAIR (operation m, state v) -- both arbitrary -- and the ORACLE value <v|Op_m|v> (any value) */
+struct Operator *g_mop; unsigned long g_mopn; unsigned long g_mstate; double g_melem;
+/* virtual Operator::getMatrixElement(bra, ket): ORACLE, any value; for the ghost pair THE value g_melem */
 static inline double Operator_getMatrixElement(struct Operator *o, Bitset bra, Bitset ket)
-{ (void)o; __CPROVER_assert(bra.w == ket.w && bra.size == ket.size, "C07: a quantum number is the DIAGONAL matrix element <u|Op|u>"); g_cur_state = ket.w; return nondet_double(); }
+{
+  __CPROVER_assert(bra.w == ket.w && bra.size == ket.size, "C07: a quantum number is the DIAGONAL matrix element <u|Op|u>"); g_cur_state = ket.w;
+  if (o == g_mop && ket.w == g_mstate) { REACH("melem@ghost-pair"); return g_melem; }
+  return nondet_double();
+}
 //@rename QN_set => QNc_set
 //@rename Symmetrizer_getQuantumNumbers => Symmc_getQuantumNumbers
 static inline QN Symmc_getQuantumNumbers(struct Symmetrizer *sy)
 { QN q; q.amount = sy->NSymmetries; q.numbers.size = (unsigned long)sy->NSymmetries; q.numbers.pending = 0; q.NumbersHash = g_h0; return q; }
 static inline _Bool QNc_set(QN *q, int pos, double val)
 {
-  (void)val;
+  /* "quantum numbers per Fock state": number n of state u is the matrix element <u|Op_n|u> itself (checked at the ghost pair: an arbitrary pair) */
+  if (pos >= 0 && (unsigned long)pos == g_mopn && g_cur_state == g_mstate)
+    __CPROVER_assert(D_SAME(val, g_melem), "C07: the n-th quantum number stored for a state u is the matrix element <u|Op_n|u> of the n-th symmetry operation");
   __CPROVER_assert(0 <= pos && pos < q->amount, "C07: set(n, value) addresses one of the `amount` numbers (otherwise the value is dropped / written outside the vector)");
   q->NumbersHash = (pos + 1 == g_nops) ? g_qhs[g_cur_state] : nondet_ulong();
   return 1;
@@ -299,6 +308,8 @@ __CPROVER_requires(self->Status < Computed ==> (SBI->size == 0 && SCN->size == 0
 __CPROVER_requires(self->IndexInfo.IndexSize <= 30 && self->Symm.Operations.size <= SYM_MAX)
 /* TYPE INVARIANT of Symmetrizer (symm.c): one accepted operation per symmetry */
 __CPROVER_requires(self->Symm.NSymmetries >= 0 && (unsigned long)self->Symm.NSymmetries == self->Symm.Operations.size && g_nops == self->Symm.NSymmetries)
+/* the ghost pair (operation, state) of the matrix-element oracle: the ghost operation is an object of its own */
+__CPROVER_requires(g_mop == self->Symm.Operations.gop.p && g_mopn == self->Symm.Operations.gidx && self->Symm.Operations.gop.p != self->Symm.Operations.scratch.p)
 /* the ghost pair (s, t); the ghost key of the map is Q(s) */
 __CPROVER_requires(SBI->gidx == g_s && SBI->gidx2 == g_t && QTB->gkey_hash == QHS(g_s) && g_eqv == hash_equiv(QHS(g_t), QHS(g_s)))
 __CPROVER_assigns(self->Status, self->IndexSize, self->StateSize, self->StateBlockIndex.size, self->StateBlockIndex.gval, self->StateBlockIndex.gval2, self->StatesContainer, QTB_GHOSTS,
@@ -326,7 +337,7 @@ __CPROVER_loop_invariant(0 <= n && n <= NOperations && QNumbers.amount == g_nops
 __CPROVER_loop_invariant(n == 0 ? QNumbers.NumbersHash == g_h0 : (n < NOperations || QNumbers.NumbersHash == g_qhs[FockStateIndex]))
 __CPROVER_decreases(NOperations - n)
 //@end
-//@harness h_SC_compute_qn enforce=SC_compute_qn props=C07 min_obl=1322 reach=6 timeout=120
+//@harness h_SC_compute_qn enforce=SC_compute_qn props=C07 min_obl=1322 reach=7 timeout=120
 void h_SC_compute_qn(void)
 {
   struct StatesClassification *p;
